@@ -108,11 +108,27 @@ open Gv.Signature in
 /-- a literal name selects exactly that function or reports why it cannot be used -/
 theorem C06_extend_literal (o : Opts) (lit : S) (cands : List Cand) (c : Cand)
     (hf : cands.find? (fun x => x.name == lit) = some c) :
-    (∀ d, parse o c.obj = .ok d → selectExtend true lit o cands = .ok [c.name]) ∧
-    (∀ e, parse o c.obj = .error e → selectExtend true lit o cands = .error (.parse e)) := by
+    (∀ d, parse (candOpts o c) c.obj = .ok d → selectExtend true lit o cands = .ok [c.name]) ∧
+    (∀ e, parse (candOpts o c) c.obj = .error e → selectExtend true lit o cands = .error (.parse e)) := by
   constructor
   · intro d hd; unfold selectExtend; simp [hf, hd]
   · intro e he; unfold selectExtend; simp [hf, he]
+
+open Gv.Signature in
+/-- a function's own `goverter:context` declarations are in effect however the function was selected: a candidate is
+parsed with the consumer's options extended by ITS OWN context names (looked up under the function's name), for a
+literal name and for a pattern alike -/
+theorem C06_extend_candidate_uses_its_own_context (o : Opts) (c : Cand) :
+    (candOpts o c).localContext = o.localContext ++ c.localCtx ∧
+    (usable o c = true ↔ ∃ d, parse (candOpts o c) c.obj = .ok d) := by
+  refine ⟨rfl, ?_⟩
+  unfold usable
+  split
+  · rename_i d hd; exact ⟨fun _ => ⟨d, hd⟩, fun _ => rfl⟩
+  · rename_i e he
+    constructor
+    · intro h; cases h
+    · rintro ⟨d, hd⟩; rw [hd] at he; cases he
 
 open Gv.Signature in
 /-- the extend list keeps everything: whatever a name of an extend line selects is in the converter's list, under its own
